@@ -1783,9 +1783,48 @@ class _Loop(StandardNode):
 
         carried_names = list(self.outputs.get_vars())[:n]
         carried_types = [v.type for v in list(body.requested_results.values())[1:][:n]]
+        initial_types = [v.type for v in self.inputs.v_initial]
 
-        for name, typ in zip(carried_names, carried_types):
-            output_types[name] = typ
+        # The final value of a carried variable is the initial value (no iterations)
+        # or a body result. The body results were typed assuming arguments of the
+        # initial values' types, which holds in every iteration only if each carried
+        # body result again fits the type of the respective initial value.
+        def preserved(res, init) -> bool:
+            if isinstance(res, Tensor) and isinstance(init, Tensor):
+                if res.dtype != init.dtype:
+                    return False
+                if init.shape is None:
+                    return True
+                if res.shape is None or len(res.shape) != len(init.shape):
+                    return False
+                return all(
+                    not isinstance(i, int) or r == i
+                    for r, i in zip(res.shape, init.shape)
+                )
+            return res == init
+
+        def merged(res, init):
+            if isinstance(res, Tensor) and isinstance(init, Tensor):
+                if res.shape is None or init.shape is None:
+                    return Tensor(res.dtype)
+                return Tensor(
+                    res.dtype,
+                    tuple(r if r == i else None for r, i in zip(res.shape, init.shape)),
+                )
+            return res
+
+        invariant = all(
+            preserved(res, init) for res, init in zip(carried_types, initial_types)
+        )
+        for name, res, init in zip(carried_names, carried_types, initial_types):
+            if invariant:
+                # Claim only what the initial value and the body result agree on
+                output_types[name] = merged(res, init)
+            elif isinstance(res, Tensor):
+                # Shapes may change between iterations: only the element type is known
+                output_types[name] = Tensor(res.dtype)
+            else:
+                output_types[name] = res
 
         return output_types
 
